@@ -24,9 +24,9 @@ if [ -n "$demosrc" ]; then
   echo "== demo WITH patch:"; (cd $(dirname $demodst) && go test ${DEMO_RACE:+-race} -tags "$DEMO_TAGS" -count=1 -run "${DEMO_RUN:-.}" -v . 2>&1 | grep -E "^(--- |ok|FAIL|PASS)" | head -8)
   rm -f $demodst
 fi
-cd /verif
+cd ${VERIF_ROOT:-/verif}
 for id in ${ids//,/ }; do
   echo "== check $id $tier against patched worktree:"
   VERIF_REPO_OVERRIDE=$wt VERIF_NOEVID=1 ./check $id $tier 2>&1 | grep -E "VIOLATION|INCONCLUSIVE|BUILD-FAILED|^\[|^---" | cut -c1-500
 done
-rm -f /verif/replays/*-s[0-9]*.json
+rm -f ${VERIF_ROOT:-/verif}/replays/*-s[0-9]*.json
